@@ -17,7 +17,7 @@ _cache = {}
 
 
 def gen_case_matrix(rng, fmt, rich):
-    opts = {"floats": True, "limits": False, "cycle": False, "maxframes": 3, "comments": False, "unique_signal_names": fmt == "arxml", "lone_mux": True, "twin_ids": fmt != "xls",
+    opts = {"floats": True, "limits": False, "cycle": False, "maxframes": 3, "comments": False, "unique_signal_names": fmt == "arxml", "lone_mux": True, "twin_ids": fmt != "xls", "negative_value_keys": True,
             "mux": fmt != "arxml", "lengths": [1, 2, 3, 4, 8, 8, 8, 12, 16, 64] if fmt in ("dbc", "json", "arxml", "sym", "kcd", "dbf", "xls") else [1, 2, 4, 8, 8, 8]}
     if rich:
         def rand_dec(nonzero):
@@ -54,6 +54,7 @@ def gen_case_matrix(rng, fmt, rich):
                 s["signed"] = True        # a float's sign flag is free (is_signed defaults to True)
         frames.append(f)
     d["frames"] = frames
+    d["ext_int"] = rng.random() < 0.5
     d["ecus"] = sorted(set(d["ecus"]) | {e for f in frames for e in f["transmitters"]} | {r for f in frames for s in f["signals"] for r in s["receivers"]})
     return d
 
